@@ -61,6 +61,7 @@ func (t *Transaction) Confirm() error {
 
 func (t *Transaction) rollback() {
 	ctx := context.Background()
+	verifYield("tx.rollback")
 	t.transactionManager.Rollback(ctx, t.GetRollbackTransaction())
 }
 
